@@ -6,6 +6,10 @@ ALL = ['C%02d' % i for i in range(1, 21)]
 
 # id -> (engine, technique, level text, level note, design ref)
 CLAIMED = {
+ 'C03': ('E3-hypothesis', 'model-based property testing: generated abstract documents serialised in varying concrete spellings, rendered HTML compared byte for byte with a reference renderer written from the documentation and stored expectations; plus a metamorphic compositionality relation (whole render == concatenation of per-block renders)',
+         'Random document trees over the constructs the statement names (paragraphs, ATX/Setext headings with ids, emphasis/strong, code spans, fenced/indented code, quotes, tight/loose lists with continuation paragraphs, rules, hard breaks, inline and automatic links, images/figures, escapes, entities, bare & < >, smart punctuation, tables with alignment, footnotes, definition lists, math, super/subscript) in MMD and compatibility mode with smart typography on/off must render exactly as the reference model pbt/htmlmodel.py says; documents of independent blocks must render to the concatenation of their blocks. Held on everything generated; one known finding (angle pair blocks emphasis) is reported as such.',
+         'Trusted: Hypothesis; the reference renderer (200 lines, written from the syntax guide and tests/MMD6Tests/*.html, never from running the code). Reference-style links, raw HTML, citations/glossaries and deeper list nesting are not modelled and not generated.',
+         'DESIGN.md section 5, C03'),
  'C04': ('E3-hypothesis', 'property-based testing with sentinel documents: differential over six output formats against the generated source, with validity predicates (accepted escape spellings, verbatim round-trip, XML parse / LaTeX nesting scanner)',
          'Generated documents whose every word is a unique sentinel and whose reserved characters and verbatim payloads are bracketed by sentinels are rendered to HTML, LaTeX, Beamer, Memoir, FODT and OPML; after visible-text extraction the body-word sequence must equal the source sequence (notes as their own subsequence, attribute text never duplicated), every reserved character must appear in an accepted escaped spelling for the target, verbatim payloads must round-trip, and markup must nest. Held on everything generated; one known finding (\\% in LaTeX verbatim) is reported as such.',
          'Trusted: Hypothesis, expat, the accepted-spelling tables and the LaTeX nesting scanner in props/c04.py. Only one of bare < / bare > per document (angle-pair ambiguity); whether LaTeX would typeset the result is not judged.',
